@@ -517,6 +517,10 @@ class SVGPath(SVGShape, SVGCommandSeq):
         def subpaths_callback(subpath_start, curr_pos, cmd, args, *_unused):
             if cmd.upper() == "M":
                 subpaths.append(SVGPath())
+            elif len(subpaths) > 1 and not subpaths[-1].d:
+                # a closepath followed by a drawing command: the next subpath starts
+                # at the same initial point, say so to keep subpaths independent
+                subpaths[-1].M(*subpath_start)
             subpaths[-1]._add_cmd(cmd, *args)
             if cmd.upper() == "Z":
                 subpaths.append(SVGPath())
